@@ -6,7 +6,8 @@ import AbraModel.Drv.Compile
                                option.unwrap | result.unwrap; value ∈ none | some:<p> | ok:<p> | err:<p> | <p>,
                                payload p ∈ int:<n> | str:<hex> | nil
                                → `C <text>` / `B <text>` (ControlFlow), `V <text>` (a value), `panic`
-   `trylower <residualArgs> <retNargs>` → the six instructions of `tryCode` in the cgen spelling, jump relative -/
+   `trylower <residualArgs> <retNargs>` → the six instructions of `tryCode` in the cgen spelling, jump relative
+   `trycompat <operand> <ret>`  families option | result:<error type> | plain → `accept` / `reject` (`tryAccepted`) -/
 namespace Abra.Drv.BG9
 open Abra.Sem Abra.TryLower
 
@@ -31,6 +32,13 @@ def preludeFn : String → Option FnDef
   | "result.from_residual" => some fromResidualResult
   | "option.unwrap" => some unwrapOption
   | "result.unwrap" => some unwrapResult
+  | _ => none
+
+def parseFam (w : String) : Option TryFam :=
+  match w.splitOn ":" with
+  | ["option"] => some .option
+  | ["result", e] => some (.result e)
+  | ["plain"] => some .plain
   | _ => none
 
 def renderV (v : Sem.Val) : String := (render 20 #[] v).getD "?"
@@ -64,6 +72,13 @@ def handleTryLower : List String → String
         | .jumpIfFalse t => s!"jump_if_false +{t - 4}"
         | .call n _ => s!"call {n} from_residual"
         | i => (instrText [] i).2)
+    | _, _ => "bad-op"
+  | _ => "bad-op"
+
+def handleTryCompat : List String → String
+  | [o, r] =>
+    match parseFam o, parseFam r with
+    | some o, some r => if tryAccepted o r then "accept" else "reject"
     | _, _ => "bad-op"
   | _ => "bad-op"
 
